@@ -65,7 +65,8 @@ fn acc(case: &Value) -> Value {
 
 fn e2e_run(case: &Value) -> Value {
     let fmt = "video/mp4";
-    let mut builder = match Builder::from_context(e2e::context(None)).with_definition(e2e::minimal_manifest("c17")) {
+    let ctx = e2e::context(None).with_signer(e2e::signer("ed25519"));
+    let mut builder = match Builder::from_context(ctx).with_definition(e2e::minimal_manifest("c17")) {
         Ok(b) => b,
         Err(e) => return json!({"r": "err", "at": "definition", "kind": err_class(&e)}),
     };
